@@ -341,7 +341,7 @@ class ObjectsMixin:
         raise Unsupported(f'call of {type(f).__name__}')
 
     def call_function(self, f, args, kwargs):
-        hook = self.contract_hooks.get(f)
+        hook = self.contract_hooks.get(f) if self.contract_hooks else None
         if hook is not None:
             r = hook(self, f, args, kwargs)
             if r is not NOTIMPL:
